@@ -17,8 +17,16 @@ TIMEOUT = 900.0
 BATCHES = (1, 2, 3, 1000)
 
 
-def items(max_nodes):
-    return [(nm, sh) for nm in ("n1", "n2") for sh in om.shapes(max_nodes)]
+def items(max_nodes, labels="ab"):
+    return [(nm, sh) for nm in ("n1", "n2")
+            for sh in om.shapes(max_nodes, labels)]
+
+
+# wave 14: span type names that are different strings but easily taken for
+# the same: composed / decomposed accent, letter case, trailing blank, one a
+# prefix of the other, digit strings
+ODD_LABELS = (("caf\u00e9", "cafe\u0301"), ("a", "A"), ("a", "a "),
+              ("a", "aa"), ("1", "01"))
 
 
 def build(tier, ctx):
@@ -31,6 +39,10 @@ def build(tier, ctx):
         it4 = [x for x in items(4) if x not in set(it3)]
         stores += [(a,) for a in it4]
         stores += [(a, b) for a in it4 for b in items(4)]
+    for labels in ODD_LABELS:
+        it2 = items(2 if tier == "quick" else 3, labels)
+        for r in (1, 2):
+            stores += list(itertools.combinations_with_replacement(it2, r))
     chunk = 8 if tier == "quick" else 24
     tasks = [{"stores": stores[i:i + chunk]}
              for i in range(0, len(stores), chunk)]
